@@ -310,7 +310,7 @@ public:
                 count++;
             }
 #ifdef YIXUAN_SPECTRA_VERIF
-            if (ortho_err > m_eps * m_beta)
+            if (m_beta > RealScalar(0) && ortho_err > m_eps * m_beta)
                 verif_notify(verif::EvReorthGaveUp, i, m_beta, ortho_err);
 #endif
         }
